@@ -130,6 +130,7 @@ void verif_observe_mpz(const char *tag, mpz_srcptr v)
     printf("OBS %s %s\n", tag, s);
     free(s);
 }
+int64_t verif_concretize(int64_t v) { return v; }
 void verif_note(const char *) {}
 int verif_is_symbolic(int64_t) { return 0; }
 int verif_symbolic_exec(void) { return 0; }
